@@ -153,7 +153,7 @@ pub fn unknown_payloads() -> Vec<Val> {
 fn fresh_ids(d: &TypeDef) -> Vec<i16> {
     // an id below all, one in a gap (if any), one just above, one far above
     let used: Vec<i16> = d.fields.iter().map(|f| f.id).collect();
-    let mut c: Vec<i16> = vec![-3, 0, 1, 2, 3, 20, 300, 30000];
+    let mut c: Vec<i16> = vec![-3, 0, 1, 2, 3, 20, 300, 30000, 32760, i16::MAX, i16::MIN];
     if let Some(m) = used.iter().max() {
         c.push(m.saturating_add(1));
         c.push(m.saturating_add(15));
@@ -793,9 +793,16 @@ pub fn fault_one(col: &mut Collector, _cx: &Ctx, e: &Entry, prot: Prot, _top: T,
         if leak_only && is_async && (f.kind == "overwrite:count" || f.kind == "overwrite:elemtype") {
             continue;
         }
+        let how = format!("{}{}", if is_async { "async-" } else { "" }, prot.name());
+        // a construct that is slow every time (recorded: async container preallocation) is given
+        // up per (reader, fault kind) after 8 slow executions; everything else goes on
+        let slow_key = format!("{}|{}", how, f.kind);
+        if col.skip_kind(&slow_key) {
+            col.outcome("skipped-after-8-slow-of-its-kind");
+            continue;
+        }
         col.evaluations += 1;
         let dec = if is_async { Dec::Async(prot, Mode::All, std::ptr::null_mut()) } else { Dec::Sync(prot) };
-        let how = format!("{}{}", if is_async { "async-" } else { "" }, prot.name());
         let case = || json!({"doc": e.doc, "cfg": e.cfg, "ty": e.ty, "prot": prot.name(), "async": is_async, "kind": f.kind, "bytes": f.bytes, "strict_prefix": f.strict_prefix});
         // leak measurement: warm-up run, then two measured runs (a real leak repeats)
         if leak_only {
@@ -854,7 +861,7 @@ pub fn fault_one(col: &mut Collector, _cx: &Ctx, e: &Entry, prot: Prot, _top: T,
             );
         }
         if ms > 2000 {
-            col.slow += 1;
+            col.slow_kind(&slow_key);
             col.fail(format!("{}|slow", head), case(), format!("{} ms", ms));
         }
     }
